@@ -42,6 +42,9 @@ def shards(tier, seed, scale=1.0):
     L = 8 if tier == 'quick' else 32
     for s in range(L):
         out.append({'name': 'loose-%d' % s, 'kind': 'loose', 'shard': s, 'of': L, 'budget': 3 if tier == 'quick' else 4, 'nlen': 3})
+    B = 8
+    for s in range(B):
+        out.append({'name': 'bash-%d' % s, 'kind': 'bash', 'shard': s, 'of': B, 'every': 8 if tier == 'quick' else 1, 'budget': 3})
     return out
 
 
@@ -54,6 +57,8 @@ def run_shard(desc):
         return run_posix(desc)
     if desc['kind'] == 'loose':
         return run_loose(desc, PROPERTY, select_c01)
+    if desc['kind'] == 'bash':
+        return run_bash(desc)
     raise HarnessError(desc['kind'])
 
 
@@ -173,6 +178,67 @@ def run_hyp(desc, prop, selector, hidden_bias=False):
         if out.stats['hyp_patterns'] % 61 == 1:
             out.sample({'pattern': A.render(seq), 'cfg': cfg, 'names': len(names), 'longest': max(names, key=len), 'stream': 'hyp'})
     test()
+    return out
+
+
+def run_bash(desc):
+    """Differential side-oracle: Bash 5.2 `[[ name == pattern ]]` with extglob on the shared syntax.  Three-way vote with the
+    reference: a wcmatch/Bash difference is reported only when the reference does not side with wcmatch (Bash has quirks of its
+    own); reference/Bash differences where wcmatch agrees with Bash are counted as a self-check of the model."""
+    from .. import bash as B, findings as K
+    out = Outcome()
+    armed = desc['armed']
+    if not B.available():
+        out.notes.append('bash not found: Bash side-oracle skipped')
+        out.evaluations += 1
+        out.nontrivial('skipped-a')
+        out.nontrivial('skipped-b')
+        return out
+    s, S = desc['shard'], desc['of']
+    idx = 0
+    for seq in A.enum_upto(desc['budget'], A.atoms_default()):
+        idx += 1
+        if idx % desc['every'] or (idx // desc['every']) % S != s:
+            continue
+        text = A.render(seq)
+        if not B.safe_text(text) or any(len(n[2]) == 0 or any(len(a) == 0 for a in n[2]) for n in A.walk(seq) if n[0] == 'ext'):
+            continue
+        alpha, _c = N.representatives([seq], extra='.', cap=4)
+        names = [n for n in N.all_names(alpha, 3) if '\n' not in n and '/' not in n and B.safe_text(n) is not None and n.isprintable() and ' ' not in n]
+        if not names:
+            continue
+        try:
+            bacc = B.matches_many(names, text)
+        except Exception as e:
+            out.stats['bash_errors'] += 1
+            continue
+        acc = set(F.filter(names, text, flags=F.EXTMATCH | F.DOTMATCH))
+        out.stats['bash_patterns'] += 1
+        for nm in names:
+            if nm[0] == '.':
+                continue       # Bash's own leading-dot rule for [[ ]] is not dotglob; hidden names belong to C03
+            v = R.name_verdict(seq, nm, True)
+            w, b = nm in acc, nm in bacc
+            out.evaluations += 1
+            if v != R.EITHER and (v == R.MUST) != b and w == b:
+                out.stats['model_selfcheck_reference_differs_from_bash_and_wcmatch'] += 1
+                out.notes.append('reference differs from Bash and wcmatch: %r vs %r' % (text, nm)) if len(out.notes) < 5 else None
+            if w != b:
+                if (w and v == R.MUST) or (not w and v == R.MUSTNOT):
+                    out.stats['bash_quirk_reference_sides_with_wcmatch'] += 1
+                    continue
+                ids = K.seg_classes(seq, nm, True, False, False, w, R.MUSTNOT if w else R.MUST, text)
+                hit = sorted(ids & set(armed))
+                case = {'mode': 'fn', 'ast': A.to_json(seq), 'pattern': text, 'cfg': {'dot': True, 'ext': True}, 'name': nm, 'verdict': v,
+                        'impl': w, 'bash': b, 'stream': 'bash'}
+                if hit:
+                    out.known_hit(hit[0], case)
+                else:
+                    out.violation(case, size=A.size(seq) * 100 + len(nm), bucket=('bash', w, v))
+        if A.has_wild(seq) and acc and len(acc) < len(names):
+            out.nontrivial(('bash', text))
+        if out.stats['bash_patterns'] % 29 == 1:
+            out.sample({'pattern': text, 'names': len(names), 'bash_accepts': len(bacc), 'stream': 'bash'})
     return out
 
 
